@@ -213,6 +213,23 @@ for _k, (_a, _b) in TECH9.items():
 for _k, _v in EXTRA7.items():
     CLAIMS[_k] = (CLAIMS[_k][0], CLAIMS[_k][1] + _v, CLAIMS[_k][2])
 
+# after seeding round 11 / refactoring round 6
+EXTRA12 = {
+ "C03": " The comparator sort reaches the scan on every path (a branch that hands the scan an array ordered some other way is not understood). The scan's abstract runs see the node map _add_edge leaves behind and are repeated with the closes of directly nested spans exchanged (identical spans may close in either order); thorough tier: all 196 well-nested sequences of up to six events.",
+ "C05": " Thorough tier: the reference bit sweep itself is validated under pandas against the brute-force exclusive-combination measure on 18000 (family triple, tie order) cases.",
+ "C09": " Validation leaves a re-weighted 'weight' attribute as it found it (abstract runs on a re-weighted one-edge graph). A second critical_path() on the same object after the graph changed reports the new path only (abstract run: no memo, no early return, edge set rebuilt); validation hooked to fail never reaches the search (abstract run, shared with C08); the shape rules defer to these runs. The result members are not class-level mutable defaults.",
+ "C08": " critical_path() with validation hooked to fail never reaches the search and reports no success (abstract run).",
+ "C10": " One realisable cell of the bound_by column's table in another class decides (a kernel-to-kernel delay on a host stream is not a realisable state).",
+ "C11": " add_symbols is decided by an abstract run on a concrete table (known symbols keep their ids; a new symbol repeated within one call is appended once).",
+ "C13": " The stack_index of a mapping row is the position of the thread's stack in self.call_stacks, the list shared by all ranks.",
+ "C14": " The sweep sort is the last sort in front of the per-stream regrouping; a stable sort that falls back to the row index at equal timestamps is a tie-order violation. Thorough tier: the reference queue / bandwidth sweeps are validated under pandas against brute-force step functions (ties, zero-length copies).",
+ "C15": " Correlation ids kept in a set created in front of the rank loop and only ever updated are ids of an earlier rank.",
+ "C19": " restore_cpgraph extracts EVERY member of the archive also when the files of an earlier extraction (same names, same sizes) are still on disk (second disk state of the abstract run).",
+}
+for _k, _v in EXTRA12.items():
+    CLAIMS[_k] = (CLAIMS[_k][0], CLAIMS[_k][1] + _v, CLAIMS[_k][2])
+CLAIMS["C11"] = (CLAIMS["C11"][0] + "; abstract run of add_symbols on a concrete table", CLAIMS["C11"][1], CLAIMS["C11"][2])
+
 REASON_WIP = "checker under construction in this session (see DESIGN.md section 3); not claimed until its check is committed"
 
 
